@@ -77,7 +77,7 @@ var reErrLine = regexp.MustCompile(`s2/cases\.go:(\d+):\d+: (.*)`)
 var reNum = regexp.MustCompile(`[0-9]+`)
 
 type idx struct {
-	i, lo, hi          int
+	i, lo, hi        int
 	entry, typ, snap string
 }
 
@@ -148,66 +148,7 @@ func TestProp(t *testing.T) {
 				return []string{"VERIF_STAGE2_DIR=" + filepath.Join(dir, "s2"), "VERIF_STAGE2_IMPORTS=" + strings.Join(imports, ","), "VERIF_STAGE2_ANCHORS=" + strings.Join(anchors, ",")}
 			},
 			Post: func(dir string, rerun func([]string) gorun.Result) {
-				os.MkdirAll(filepath.Join(dir, "s2main"), 0o755)
-				os.WriteFile(filepath.Join(dir, "s2main", "main.go"), []byte(stage2Main), 0o644)
-				index := readIndex(filepath.Join(dir, "s2", "index.tsv"))
-				if len(index) == 0 {
-					c.Rep.Inconcl("stage 1 produced no cases")
-					return
-				}
-				b := gorun.Go(dir, 10*time.Minute, "build", "-gcflags=-e", "-o", "s2.bin", "./s2main")
-				if b.Exit != 0 {
-					// map compile errors back to cases
-					byCase := map[int]string{}
-					for _, m := range reErrLine.FindAllStringSubmatch(b.Stderr, -1) {
-						ln, _ := strconv.Atoi(m[1])
-						for _, ix := range index {
-							if ln >= ix.lo && ln <= ix.hi {
-								if _, ok := byCase[ix.i]; !ok {
-									byCase[ix.i] = m[2]
-								}
-							}
-						}
-					}
-					if len(byCase) == 0 {
-						c.Rep.Inconcl("stage 2 does not build for a reason outside the cases: %s", pkit.Trunc(b.Stderr, 800))
-						return
-					}
-					var is []int
-					for i := range byCase {
-						is = append(is, i)
-					}
-					sort.Ints(is)
-					ix := index[is[0]]
-					c.Rep.AddExtra("expressions_not_compiling", int64(len(is)))
-					failSig = map[string]string{"check": "compile", "class": errClass(byCase[is[0]])}
-					failMsg = fmt.Sprintf("deriveGoString output does not compile for type %s, value %s:\n%s\n(%d of %d expressions fail to compile)", ix.typ, ix.snap, byCase[is[0]], len(is), len(index))
-					return
-				}
-				r := gorun.Run(dir, 5*time.Minute, os.Environ(), filepath.Join(dir, "s2.bin"))
-				var res struct {
-					Evaluated int
-					Bad       []struct {
-						Idx                          int
-						Entry, Type, Want, Got, Snap string
-						Panic                        string
-					}
-				}
-				if err := json.Unmarshal([]byte(r.Stdout), &res); err != nil {
-					c.Rep.Inconcl("stage 2 output unreadable: %v %s", err, pkit.Trunc(r.Stdout+r.Stderr, 500))
-					return
-				}
-				c.Rep.AddExtra("stage2_expressions_evaluated", int64(res.Evaluated))
-				if len(res.Bad) > 0 {
-					bd := res.Bad[0]
-					if bd.Panic != "" {
-						failSig = map[string]string{"check": "evaluation-panic"}
-						failMsg = fmt.Sprintf("the expression for type %s, value %s panics when evaluated: %s", bd.Type, bd.Snap, bd.Panic)
-					} else {
-						failSig = map[string]string{"check": "round-trip"}
-						failMsg = fmt.Sprintf("type %s: deriveGoString(x) evaluates to a different value\n x    = %s\n got  = %s\n(%d of %d expressions differ)", bd.Type, bd.Want, bd.Got, len(res.Bad), res.Evaluated)
-					}
-				}
+				failSig, failMsg = stage2(c, dir)
 			}})
 		if failSig != nil {
 			keep := map[string]string{}
@@ -216,7 +157,8 @@ func TestProp(t *testing.T) {
 					keep[k] = v
 				}
 			}
-			c.Fail(rt, failSig, failMsg, keep, map[string]any{"harness": "c06"})
+			c.Fail(rt, failSig, failMsg, keep, map[string]any{"harness": "c06", "harness_seed": strconv.FormatUint(out.Seed, 10), "checks": checks(c),
+				"imports": strings.Join(imports, ","), "anchors": strings.Join(anchors, ",")})
 		}
 	})
 }
@@ -224,5 +166,92 @@ func TestProp(t *testing.T) {
 func TestProbes(t *testing.T) { pkit.Load(prop).RunProbes(t, nil) }
 
 func TestReplay(t *testing.T) {
-	t.Fatalf("no single-case replay for this check (the failing case is kept under <dir>/module with replay.json): re-run ./vcheck C06 <tier> with the VERIF_SEED of the failing run")
+	dir := pkit.ReplayDir()
+	if dir == "" {
+		t.Skip("no replay dir")
+	}
+	c := pkit.Load(prop)
+	meta, _, err := pkit.ReadReplay(dir)
+	if err != nil {
+		t.Fatal(err)
+	}
+	imports, _ := meta["imports"].(string)
+	anchors, _ := meta["anchors"].(string)
+	ok, msg := e2.ReplayOpts(c, dir, func(d string) []string {
+		return []string{"VERIF_STAGE2_DIR=" + filepath.Join(d, "s2"), "VERIF_STAGE2_IMPORTS=" + imports, "VERIF_STAGE2_ANCHORS=" + anchors}
+	}, func(d string) (bool, string) {
+		if sig, m := stage2(c, d); sig != nil {
+			return false, fmt.Sprint(sig) + ": " + m
+		}
+		return true, ""
+	})
+	if !ok {
+		t.Fatalf("still fails: %s", msg)
+	}
+}
+
+// stage2 compiles and evaluates the expressions stage 1 wrote under dir/s2 and compares each value with
+// the value it was printed from; it returns the signature and message of the first failing expression.
+func stage2(c *pkit.Ctx, dir string) (failSig map[string]string, failMsg string) {
+	os.MkdirAll(filepath.Join(dir, "s2main"), 0o755)
+	os.WriteFile(filepath.Join(dir, "s2main", "main.go"), []byte(stage2Main), 0o644)
+	index := readIndex(filepath.Join(dir, "s2", "index.tsv"))
+	if len(index) == 0 {
+		c.Rep.Inconcl("stage 1 produced no cases")
+		return nil, ""
+	}
+	b := gorun.Go(dir, 10*time.Minute, "build", "-gcflags=-e", "-o", "s2.bin", "./s2main")
+	if b.Exit != 0 {
+		// map compile errors back to cases
+		byCase := map[int]string{}
+		for _, m := range reErrLine.FindAllStringSubmatch(b.Stderr, -1) {
+			ln, _ := strconv.Atoi(m[1])
+			for _, ix := range index {
+				if ln >= ix.lo && ln <= ix.hi {
+					if _, ok := byCase[ix.i]; !ok {
+						byCase[ix.i] = m[2]
+					}
+				}
+			}
+		}
+		if len(byCase) == 0 {
+			c.Rep.Inconcl("stage 2 does not build for a reason outside the cases: %s", pkit.Trunc(b.Stderr, 800))
+			return failSig, failMsg
+		}
+		var is []int
+		for i := range byCase {
+			is = append(is, i)
+		}
+		sort.Ints(is)
+		ix := index[is[0]]
+		c.Rep.AddExtra("expressions_not_compiling", int64(len(is)))
+		failSig = map[string]string{"check": "compile", "class": errClass(byCase[is[0]])}
+		failMsg = fmt.Sprintf("deriveGoString output does not compile for type %s, value %s:\n%s\n(%d of %d expressions fail to compile)", ix.typ, ix.snap, byCase[is[0]], len(is), len(index))
+		return failSig, failMsg
+	}
+	r := gorun.Run(dir, 5*time.Minute, os.Environ(), filepath.Join(dir, "s2.bin"))
+	var res struct {
+		Evaluated int
+		Bad       []struct {
+			Idx                          int
+			Entry, Type, Want, Got, Snap string
+			Panic                        string
+		}
+	}
+	if err := json.Unmarshal([]byte(r.Stdout), &res); err != nil {
+		c.Rep.Inconcl("stage 2 output unreadable: %v %s", err, pkit.Trunc(r.Stdout+r.Stderr, 500))
+		return failSig, failMsg
+	}
+	c.Rep.AddExtra("stage2_expressions_evaluated", int64(res.Evaluated))
+	if len(res.Bad) > 0 {
+		bd := res.Bad[0]
+		if bd.Panic != "" {
+			failSig = map[string]string{"check": "evaluation-panic"}
+			failMsg = fmt.Sprintf("the expression for type %s, value %s panics when evaluated: %s", bd.Type, bd.Snap, bd.Panic)
+		} else {
+			failSig = map[string]string{"check": "round-trip"}
+			failMsg = fmt.Sprintf("type %s: deriveGoString(x) evaluates to a different value\n x    = %s\n got  = %s\n(%d of %d expressions differ)", bd.Type, bd.Want, bd.Got, len(res.Bad), res.Evaluated)
+		}
+	}
+	return failSig, failMsg
 }
